@@ -78,6 +78,11 @@ func (p *Proxy) Fetch(ctx context.Context, target ocispec.Descriptor) (io.ReadCl
 		pushErr = p.Cache.Push(ctx, target, pr)
 		if pushErr != nil {
 			pr.CloseWithError(pushErr)
+		} else {
+			// a size-limited cache stops reading after target.Size bytes: keep
+			// draining so that a source with trailing data cannot block the
+			// reader on the pipe (the reader reports the trailing data itself)
+			io.Copy(io.Discard, pr)
 		}
 	}()
 	closer := ioutil.CloserFunc(func() error {
